@@ -14,6 +14,7 @@ import (
 	"errors"
 	"fmt"
 	"io"
+	"io/fs"
 	"log/slog"
 	"os"
 	"os/exec"
@@ -53,8 +54,33 @@ type faultKey struct {
 	chunk int
 }
 
+// injectedError is the error a failing primitive returns, by identity kind: the specification abstracts from the
+// identity of a failure (ErrKinds); whatever it is, it must be reported.
+func injectedError(kind, what, path string) error {
+	switch kind {
+	case "notexist":
+		return &fs.PathError{Op: what, Path: path, Err: syscall.ENOENT}
+	case "exist":
+		return &fs.PathError{Op: what, Path: path, Err: syscall.EEXIST}
+	case "permission":
+		return &fs.PathError{Op: what, Path: path, Err: syscall.EACCES}
+	case "eof":
+		return io.EOF
+	case "unexpected-eof":
+		return fmt.Errorf("%s %s: %w", what, path, io.ErrUnexpectedEOF)
+	case "canceled":
+		return context.Canceled
+	case "deadline":
+		return fmt.Errorf("%s %s: %w", what, path, context.DeadlineExceeded)
+	case "closed":
+		return fmt.Errorf("%s %s: %w", what, path, fs.ErrClosed)
+	}
+	return fmt.Errorf("%s %s: %w", what, path, errInjected)
+}
+
 type faultBucket struct {
 	storage.WriteBucket
+	kind     string
 	mu       sync.Mutex
 	plan     map[faultKey]bool
 	consumed map[faultKey]bool
@@ -74,7 +100,7 @@ func (b *faultBucket) hit(k faultKey) bool {
 func (b *faultBucket) Put(ctx context.Context, path string, opts ...storage.PutOption) (storage.WriteObjectCloser, error) {
 	f := b.fileOf(path)
 	if b.hit(faultKey{f, "put", 0}) {
-		return nil, fmt.Errorf("put %s: %w", path, errInjected)
+		return nil, injectedError(b.kind, "put", path)
 	}
 	w, err := b.WriteBucket.Put(ctx, path, opts...)
 	if err != nil {
@@ -95,14 +121,14 @@ func (w *faultWriter) Write(p []byte) (int, error) {
 	if w.b.hit(faultKey{w.file, "write", w.writes}) {
 		// a failing write that got half of the data out (a short write with its error)
 		n, _ := w.WriteObjectCloser.Write(p[:len(p)/2])
-		return n, fmt.Errorf("write: %w", errInjected)
+		return n, injectedError(w.b.kind, "write", "")
 	}
 	return w.WriteObjectCloser.Write(p)
 }
 
 func (w *faultWriter) Close() error {
 	if w.b.hit(faultKey{w.file, "close", 0}) {
-		return fmt.Errorf("close: %w", errInjected)
+		return injectedError(w.b.kind, "close", "")
 	}
 	return w.WriteObjectCloser.Close()
 }
@@ -123,6 +149,8 @@ type Case struct {
 	Tmp     []bool   `json:"tmp"`
 	Count   int      `json:"count"`
 	Started []bool   `json:"started"`
+	// ErrKinds: the identities of the injected failure the plan is replayed with
+	ErrKinds []string `json:"errKinds"`
 }
 
 func (c Case) planKey() string {
@@ -298,6 +326,17 @@ func runOp(ctx context.Context, op string, c Case, src storage.ReadBucket, dst s
 	return fmt.Errorf("harness: unknown op %s", op), -2
 }
 
+// opKinds is the product of operations and error identities.
+func opKinds(ops, kinds []string) [][2]string {
+	var out [][2]string
+	for _, o := range ops {
+		for _, k := range kinds {
+			out = append(out, [2]string{o, k})
+		}
+	}
+	return out
+}
+
 type onlyReader struct{ r io.Reader }
 
 func (o onlyReader) Read(p []byte) (int, error) { return o.r.Read(p) }
@@ -339,7 +378,12 @@ func runReplay(in []byte) (*reg.Result, error) {
 					// negative control: an operation that swallows the error (the oracle must object)
 					ops = []string{"neg-swallow"}
 				}
-				for _, op := range ops {
+				kinds := c.ErrKinds
+				if len(kinds) == 0 || len(c.Plan) == 0 || inp.Corrupt {
+					kinds = []string{"plain"}
+				}
+				for _, opk := range opKinds(ops, kinds) {
+					op, errKind := opk[0], opk[1]
 					// source
 					srcMap := map[string][]byte{}
 					for f := 1; f <= n; f++ {
@@ -369,7 +413,7 @@ func runReplay(in []byte) (*reg.Result, error) {
 							}
 						}
 					}
-					fb := &faultBucket{WriteBucket: d.b, plan: map[faultKey]bool{}, consumed: map[faultKey]bool{}, fileOf: fileOf}
+					fb := &faultBucket{WriteBucket: d.b, kind: errKind, plan: map[faultKey]bool{}, consumed: map[faultKey]bool{}, fileOf: fileOf}
 					for _, p := range c.Plan {
 						fb.plan[faultKey{int(p[0].(float64)), p[1].(string), int(p[2].(float64))}] = true
 					}
@@ -397,6 +441,10 @@ func runReplay(in []byte) (*reg.Result, error) {
 					}
 					caseInfo := map[string]any{"op": op, "case": c, "got_ret": ret, "got_dest": got, "got_count": cnt, "err": fmt.Sprint(opErr)}
 					sig := fmt.Sprintf("%s/%s/atomic=%v/plan=%s", op, c.Kind, c.Atomic, c.planKey())
+					if errKind != "plain" {
+						sig += "/error=" + errKind
+						caseInfo["error_identity"] = errKind
+					}
 					emu.Lock()
 					distinct[sig+fmt.Sprint(c.Init)] = true
 					emu.Unlock()
